@@ -92,6 +92,35 @@ def run(ctx):
     rep.check(any(any(s[2] == "channel" for s in field_steps(p)) for c in sc for bi, p, l in places_read_in(c)), "C18.R4", "emissions-digest:sort-key-is-channel", "sort comparator reads .channel",
               "sort comparator does not read the channel id", site=ed.loc())
 
+    # R6: a reducer declared commutative folds EVERY operand.  An operand loop with an early exit ("zero is absorbing, stop")
+    # makes the result depend on which operands came before the exit — the result then depends on key order for operands of
+    # unequal length although the reducer is declared order-free.
+    rep.rule("C18.R6", "A1 commutative reducer arms consume every operand: no early exit from an operand loop")
+    asw = enum_switches(ap, MB + "reduce_op::ReduceOp")
+    full_sw = [x for x in asw if len(x[1]) >= 8] or asw
+    if full_sw:
+        bb, arms, ow, _ = full_sw[0]
+        tg = set(arms.values())
+        for v in sorted(COMMUTATIVE):
+            tgt = arms.get(v)
+            if tgt is None:
+                rep.bad("C18.R6", "commutative-folds-all:%s" % v, "no arm for %s in ReduceOp::apply" % v, site=ap.loc())
+                continue
+            region = ap.reachable([tgt], avoid_blocks=[x for x in tg if x != tgt])
+            loops = iterator_loops(ap, region)
+            early = [(ap.block_line(a), ap.block_line(b)) for (h, body, ne, ex) in loops for (a, b) in ex]
+            helper_early = []
+            for b in region:
+                t = ap.blocks[b]["t"]
+                if t["t"] == "call":
+                    for a in t["args"]:
+                        for at in ap.origins().of_operand(a, deep=False):
+                            if at.kind == "agg" and at.key[0] in prog.fns:
+                                c = prog.fns[at.key[0]]
+                                for (h, body, ne, ex) in iterator_loops(c):
+                                    helper_early += [(c.block_line(x), c.block_line(y)) for (x, y) in ex]
+            rep.check(not early and not helper_early, "C18.R6", "commutative-folds-all:%s" % v, "%d operand loop(s), none exits early" % len(loops),
+                      "the %s arm leaves its operand loop early (line %s): later operands are ignored, so the result depends on emission key order" % (v, (early + helper_early)[:2]), site=ap.loc())
     ic = prog.fn(MB + "reduce_op::ReduceOp::is_commutative")
     sws = enum_switches(ic, MB + "reduce_op::ReduceOp")
     got = None
